@@ -169,6 +169,9 @@ class ZS:
             return VAbs(z3.Const(name, self.zsort(S)), S)
         if isinstance(S, api.Const):
             return S.value
+        if isinstance(S, api.MatchS):
+            pat = resolver(S.pattern_expr) if resolver else None
+            return VMatch(pat, z3.Const(name + '?subject', z3.StringSort()), S.method)
         if S is api.Obj:
             return VObj(z3.Const(name, self.zsort(S)))
         if isinstance(S, api.Enum) and resolver:
@@ -279,7 +282,11 @@ class ZS:
             if z3.is_true(n) or n is True:
                 return None
             return self.to_py(model, v.val)
+        if isinstance(v, VMatch):
+            return self.to_py(model, v.subject)
         if isinstance(v, VBox):
+            if v.kind == 'dict':
+                return {'__term__': 'dict'}
             if v.kind == 'set':
                 return {'__set__': str(model.eval(v.term, model_completion=True))}
             r = self.to_py(model, v.term)
